@@ -1819,7 +1819,8 @@ impl TypeCheckVisitor<'_> {
         let inferred_rhs_ty = self.infer_expr(rhs, type_bindings, expected_return_ty);
 
         // Add a special case for users confusing the int and float operators.
-        if is_subtype(&inferred_lhs_ty, &Type::int()) && is_subtype(&inferred_rhs_ty, &Type::int())
+        if is_subtype_not_error(&inferred_lhs_ty, &Type::int())
+            && is_subtype_not_error(&inferred_rhs_ty, &Type::int())
         {
             let (int_op, float_op) = match op.kind {
                 BinaryOperatorKind::AddFloat => ("+", "+."),
